@@ -3,3 +3,9 @@ import Tv.Thm.C06
 #print axioms Tv.C06.feat_prewindow
 #print axioms Tv.windowed_prefix
 #print axioms Tv.window_congr
+#print axioms Tv.C06.prefix_of_windowed
+#print axioms Tv.C06.local_of_windowed
+#print axioms Tv.C06.c03_cmp_prefix
+#print axioms Tv.C06.c03_vmin_prefix_none
+#print axioms Tv.C06.c03_norm_prefix
+#print axioms Tv.C06.c03_prewindow
